@@ -3,6 +3,7 @@ package c16
 import (
 	"bytes"
 	"fmt"
+	"strings"
 	"testing"
 
 	"github.com/ossrs/go-oryx-lib/https/jose"
@@ -40,12 +41,12 @@ func TestVerif_C16_Tamper(t *testing.T) {
 	m.Rule("tamper: one JWE per (key-management alg x content encryption x {compact, flattened JSON+AAD}) with zip and payload size {1,17,33} alternating, " +
 		"plus multi-recipient objects; every field present (protected, encrypted_key, iv, ciphertext, tag, aad; per-recipient encrypted_key) is decoded, ONE bit of its " +
 		"bytes inverted, re-encoded, then ParseEncrypted+Decrypt with the right key must fail. Every bit of every field; in the quick tier the 2048-bit RSA encrypted_key " +
-		"is sampled (first/last 16 bits + 96 PRNG-chosen bits). A different key of the same kind, and for symmetric keys every 1-bit variant of the key, must be rejected. " +
+		"is sampled (first/last 16 bits + 480 PRNG-chosen bits, a quarter of the field). A different key of the same kind, and for symmetric keys every 1-bit variant of the key, must be rejected. " +
 		"distinct = alg/enc/serialization/field classes")
 	m.Exhaustive(allRSABits)
 	rounds := m.N(1, 12)
 	m.Note("rounds", rounds)
-	m.Note("rsa_encrypted_key_bits", map[bool]string{true: "all", false: "sampled: 32 edge bits + 96 PRNG bits"}[allRSABits])
+	m.Note("rsa_encrypted_key_bits", map[bool]string{true: "all", false: "sampled: 32 edge bits + 480 PRNG bits of 2048"}[allRSABits])
 
 	var objs []jweTamperObj
 	for round := 0; round < rounds; round++ {
@@ -129,6 +130,9 @@ func TestVerif_C16_Tamper(t *testing.T) {
 		for _, f := range ro.Fields() {
 			jobs = append(jobs, job{oi, f})
 		}
+		for _, n := range ro.StrayMembers() {
+			m.Count("general_json_with_stray_top_level_"+n, 1) // recorded: not a field of the general syntax, ignored by the parser
+		}
 	}
 	m.Note("jwe_tamper_objects", len(objs))
 	m.Require("jwe_tamper_trials", 100000)
@@ -173,7 +177,7 @@ func TestVerif_C16_Tamper(t *testing.T) {
 			return
 		}
 		all := !(o.rsa && j.field.Name == "encrypted_key") || allRSABits
-		bits := bitsOf(m, "bits", ji, len(orig), all, 96)
+		bits := bitsOf(m, "bits", ji, len(orig), all, 480)
 		if !all {
 			m.Count("jwe_fields_sampled", 1)
 		}
@@ -213,7 +217,15 @@ func TestVerif_C16_Tamper(t *testing.T) {
 			}
 		}
 		if key, ok := ks.byName(o.keys[0]).([]byte); ok {
-			for bit := 0; bit < len(key)*8; bit++ {
+			nbits := len(key) * 8
+			if o.alg == "dir" && strings.Contains(o.enc, "CBC") {
+				// RFC 7518 §5.2: the CEK of AES_CBC_HMAC_SHA2 is MAC_KEY || ENC_KEY and the tag does not depend on
+				// ENC_KEY: a key that differs only in the ENC_KEY half passes the tag check and yields garbage with
+				// valid padding about once in 256 tries.  That is the algorithm, not the library; only the MAC half is swept.
+				nbits /= 2
+				m.Count("jwe_dir_cbc_key_sweeps_limited_to_mac_half", 1)
+			}
+			for bit := 0; bit < nbits; bit++ {
 				dims := []dim{{"alg", o.alg}, {"enc", o.enc}, {"ser", o.ser}, {"how", "1bit-key"}}
 				col.seen("wrong-key-accepted:jwe", dims)
 				m.Case()
